@@ -18,7 +18,7 @@ for case in itertools.islice(mod.gen_cases("quick", random.Random(seed)), N):
         bad[("HARNESS", type(e).__name__, str(e)[:80])].append(traceback.format_exc()[-600:]); continue
     cnt[r['verdict']] += 1
     for t in r['tags']:
-        if t.startswith(('all-rej', 'rejected', 'ctor', 'core-', 'pandas-')): cnt[t] += 1
+        if t.startswith(('all-rej', 'rejected', 'ctor', 'core-', 'pandas-', 'model-tie')): cnt[t] += 1
     if r['verdict'] != 'ok':
         d = r['detail']
         bad[(r['verdict'],) + tuple(str(x) for x in r.get('bucket', ()))].append((str(d.get('expected'))[:230], str(d.get('actual'))[:230], str(d.get('note', ''))[:80], str(d.get('arrangement', ''))[:200]))
